@@ -287,8 +287,12 @@ void LegacyTimePeriod::ParseTimeSpec(const String& timespec, tm *begin, tm *end,
 
 		int n = 0;
 
-		if (tokens.size() > 1)
+		if (tokens.size() > 1) {
 			n = Convert::ToLong(tokens[1]);
+
+			if (n == 0)
+				BOOST_THROW_EXCEPTION(std::invalid_argument("Invalid weekday offset in time specification: " + timespec));
+		}
 
 		if (begin) {
 			*begin = myref;
